@@ -190,7 +190,7 @@ func Run15G(c Case15G) (info Info15G, v *vstat.Violation) {
 	for i, it := range c.Items {
 		if (it.K == KBytes || it.K == KString) && (len(c.Keep) == 0 || keep[i]) {
 			info.Kept++
-			if it.N == 0 {
+			if len(it.Content()) == 0 {
 				info.KeptEmpty++
 			} else {
 				info.KeptNonEmpty++
